@@ -104,7 +104,7 @@ func (p c07) RunBatch(ctx *core.Ctx, batch int) {
 				}
 				v := qt.Escaped(w)
 				for _, leaf := range []*qt.Node{qt.F("a", v), qt.T(v), qt.Range("a", qt.Word("b"), v, true)} {
-					for _, other := range []*qt.Node{qt.F("c", qt.Word("d")), qt.Not(qt.T(qt.Phrase("p q")))} {
+					for _, other := range []*qt.Node{qt.F("c", qt.Word("d")), qt.Not(qt.T(qt.Phrase("p q"))), qt.T(qt.Word("z"))} {
 						p.checkTree(ctx, qt.And(leaf.Clone(), other.Clone()), ctx.Rand("edges"))
 						p.checkTree(ctx, qt.And(qt.And(other.Clone(), leaf.Clone()), qt.F("e", qt.Word("f"))), ctx.Rand("edges"))
 						ctx.Count("escaped_edge_trees", 2)
